@@ -447,6 +447,60 @@ def r2(ctx):
                 'bypass operator: wall terms x 1/(cell flow), conduction '
                 'constants (already per cell flow) added after, all divided '
                 'by cp once', key=bf.full + ' | operator structure')
+    # wall terms of the operator, both branches, as algebra: the terms the
+    # criteria were compared with above must be the terms the update applies
+    oatoms = {'byp_conv_const[:, 0]': 'wl0', 'byp_conv_const[:, 1]': 'wl1',
+              'htc_i': 'h', "self.d['wall'][i]": 'dw1',
+              "self.d['wall'][i + 1]": 'dw2',
+              'self.duct.thermal_conductivity': 'kw',
+              "self.temp['duct_mw'][i]": 'Tw1',
+              "self.temp['duct_mw'][i + 1]": 'Tw2',
+              "self.temp['duct_surf'][i, 1]": 'Ts1',
+              "self.temp['duct_surf'][i + 1, 0]": 'Ts2',
+              "self.temp['coolant_byp'][i]": 'T'}
+    h_, T_ = S('h'), S('T')
+
+    def model(approx, wall):
+        wl_ = S('wl0' if wall == 'in' else 'wl1')
+        if approx:
+            dwx = S('dw1' if wall == 'in' else 'dw2')
+            tw = S('Tw1' if wall == 'in' else 'Tw2')
+            return wl_ * (one / (one / h_ + dwx / (Rat.const(2) * kwb_))) * (
+                tw - T_)
+        ts = S('Ts1' if wall == 'in' else 'Ts2')
+        return wl_ * h_ * (ts - T_)
+    kwb_ = S('kw')
+    branch = [n for n in ast.walk(bf.node) if isinstance(n, ast.If)
+              and _s(n.test) == 'self._conv_approx']
+    if len(branch) != 1:
+        raise AnalysisError('_calc_coolant_byp_temp: conv_approx branch')
+    for approx, body in ((True, branch[0].body), (False, branch[0].orelse)):
+        for wall, var in (('in', 'dT_in'), ('out', 'dT_out')):
+            asg = [a for st in body for a in ast.walk(st)
+                   if isinstance(a, ast.Assign) and len(a.targets) == 1
+                   and _s(a.targets[0]) == var]
+            okw = len(asg) == 1
+            got = None
+            if okw:
+                e = U.value_at(bf.node, asg[0].value, asg[0].lineno,
+                               keep=('htc_i', 'byp_conv_const', 'i'))
+                try:
+                    got = from_ast(e, oatoms, auto=True)
+                    okw = got.equals(model(approx, wall))
+                except NotPolynomial:
+                    okw = False
+            ctx.require(okw, 'C04.R2', bf, asg[0] if asg else branch[0],
+                        'bypass operator, %s wall%s: the wall term must be '
+                        'wall length x %s x (T_wall - T) with the thickness '
+                        'and temperature of that wall (the step criteria '
+                        'assume exactly this term)%s' % (
+                            'inner' if wall == 'in' else 'outer',
+                            ' (convection approximation)' if approx else '',
+                            '1/(1/h + dw/2k)' if approx else 'h',
+                            '; got %r' % (got.n,) if got is not None and
+                            not okw else ''),
+                        key='%s | wall term %s %s' % (
+                            bf.full, wall, 'approx' if approx else 'film'))
 
 
 # ---------------------------------------------------------------------------
